@@ -51,8 +51,8 @@ ImplProto(k) ==
             ELSE LET accept == /\ a.k = (IF SVal(t1) = 1 THEN "v4" ELSE "v6") /\ ~IsAny(a.b)
                                /\ pv >= 0 /\ pe <= Len(s) /\ s[pe] = 124 /\ (k.sanity => pv >= 1024)
                  IN k.ok = accept /\ (accept => k.port = pv % 65536)
-RECURSIVE SubAt(_, _, _)
-SubAt(s, n, k) == IF k + Len(n) - 1 > Len(s) THEN FALSE ELSE IF SubSeq(s, k, k + Len(n) - 1) = n THEN TRUE ELSE SubAt(s, n, k + 1)
+\* n occurs in s at some position >= k
+SubAt(s, n, k) == \E j \in k..(Len(s) - Len(n) + 1) : SubSeq(s, j, j + Len(n) - 1) = n
 ImplList(k) == k.entry => SubAt(k.s, k.name, 1)
 IOk(k) == /\ ~k.ub
           /\ CASE k.fn = "ipport" -> ImplIpPort(k)
